@@ -238,6 +238,24 @@ fn main() {
     jobs.extend(illformed_decl_texts());
     jobs.extend(diverging_texts());
     jobs.extend(literal_edge_texts());
+    // editing states: balanced skeletons, truncated identifiers, shuffled items, impl / extend headers
+    for (ci, (name, text)) in corpus.iter().enumerate() {
+        let (bs, ts) = if quick {
+            (balanced_states(text, 7, ci), identifier_truncations(text, false, 9, ci))
+        } else {
+            (balanced_states(text, 1, 0), identifier_truncations(text, true, 1, 0))
+        };
+        for t in bs {
+            jobs.push((format!("edit:balanced:{name}"), t));
+        }
+        for t in ts {
+            jobs.push((format!("edit:truncated-ident:{name}"), t));
+        }
+        for t in item_shuffles(&mut ctx.rng, text, if quick { 1 } else { 12 }) {
+            jobs.push((format!("edit:items-shuffled:{name}"), t));
+        }
+    }
+    jobs.extend(impl_header_texts());
     jobs.extend(default_binding_texts());
     jobs.extend(default_context_texts());
     jobs.extend(namespace_texts());
@@ -282,7 +300,7 @@ fn main() {
     let mut seen: BTreeMap<String, u64> = BTreeMap::new();
     let mut disagree = 0;
     for ((label, text), r) in jobs.iter().zip(results) {
-        let kind = label.split(':').take(if label.starts_with("mut") || label.starts_with("deep") || label.starts_with("long") || label.starts_with("import") || label.starts_with("inftype") || label.starts_with("arity") || label.starts_with("illdecl") || label.starts_with("diverge") || label.starts_with("litedge") || label.starts_with("defbind") || label.starts_with("defctx") || label.starts_with("nsuse") || label.starts_with("assign") { 2 } else { 1 }).collect::<Vec<_>>().join(":");
+        let kind = label.split(':').take(if label.starts_with("mut") || label.starts_with("deep") || label.starts_with("long") || label.starts_with("import") || label.starts_with("inftype") || label.starts_with("arity") || label.starts_with("illdecl") || label.starts_with("diverge") || label.starts_with("litedge") || label.starts_with("defbind") || label.starts_with("edit") || label.starts_with("implhdr") || label.starts_with("defctx") || label.starts_with("nsuse") || label.starts_with("assign") { 2 } else { 1 }).collect::<Vec<_>>().join(":");
         let kind = kind.trim_end_matches(|c: char| c.is_ascii_digit()).to_string();
         ctx.count(&format!("text:{kind}"));
         if !text.is_ascii() {
